@@ -5,6 +5,7 @@ package main
 
 import (
 	"fmt"
+	"go/token"
 	"go/types"
 	"strings"
 
@@ -39,6 +40,9 @@ func (m *Machine) doCall(c *Config, call ssa.CallInstruction) (*Config, []*Confi
 		if !ok {
 			h, ok = invokeHandlers["*."+com.Method.Name()]
 		}
+		if !ok && strings.HasPrefix(name, "reflect.Type.") {
+			return m.pureExternal(c, call, name, append([]Value{recv}, args...))
+		}
 		if !ok {
 			return m.havocCall(c, call, "invoke "+name)
 		}
@@ -52,7 +56,7 @@ func (m *Machine) doCall(c *Config, call ssa.CallInstruction) (*Config, []*Confi
 	if callee == nil {
 		fv, ok := m.operand(c, com.Value).(*FuncV)
 		if !ok || fv.Fn == nil {
-			return m.havocCall(c, call, "dynamic call")
+			return m.dynCall(c, call)
 		}
 		callee = fv.Fn
 		bind = fv.Bind
@@ -74,6 +78,9 @@ func (m *Machine) doCall(c *Config, call ssa.CallInstruction) (*Config, []*Confi
 	full := callee.String()
 	if h, ok := extHandlers[full]; ok {
 		return m.applyOutcomes(c, call, h(m, c, call, args), "ext:"+full)
+	}
+	if callee.Pkg != nil && pureExternalPkgs[callee.Pkg.Pkg.Path()] {
+		return m.pureExternal(c, call, full, args)
 	}
 	return m.havocCall(c, call, full)
 }
@@ -363,8 +370,12 @@ func (m *Machine) builtin(c *Config, call ssa.CallInstruction, name string, args
 				return c, nil
 			}
 			if a.Sort == SObj { // channel
-				c.st.abstract = true
-				m.bindCallResult(c, call, []Value{m.syms.fresh("chanlen", SBV64)})
+				cs := m.chanState(c.st, a)
+				if name == "cap" {
+					m.bindCallResult(c, call, []Value{cs.cap})
+				} else {
+					m.bindCallResult(c, call, []Value{cs.len})
+				}
 				return c, nil
 			}
 		}
@@ -451,4 +462,150 @@ func (m *Machine) appendBuiltin(c *Config, call ssa.CallInstruction, args []Valu
 	res := &SliceV{Obj: obj, Off: BVLitI(0, 64), Len: nl, Cap: ncap, Nil: And(base.Nil, Eq(addLen, BVLitI(0, 64)))}
 	m.bindCallResult(c, call, []Value{res})
 	return c, nil
+}
+
+// dynCall: call of an unknown function value (pool factory, value extractor).
+// The result is unconstrained; the call is counted in the ghosts @dyncalls / @lastdyn.
+// Assumption A-DYN: the callee does not touch the caller's receiver state or ghosts.
+func (m *Machine) dynCall(c *Config, call ssa.CallInstruction) (*Config, []*Config) {
+	st := c.st
+	st.abstract = true
+	st.trust("A-DYN: dynamically called function values do not modify the caller's instance")
+	sig := call.Common().Signature()
+	var res []Value
+	for i := 0; i < sig.Results().Len(); i++ {
+		res = append(res, m.freshValue("dyn", sig.Results().At(i).Type()))
+	}
+	st.ghost["@dyncalls"] = BVAdd(m.ghostOr(st, "@dyncalls", BVLitI(0, 64)), BVLitI(1, 64))
+	if len(res) > 0 {
+		st.ghost["@lastdyn"] = res[0]
+	}
+	m.bindCallResult(c, call, res)
+	return c, nil
+}
+
+// ---------- uninterpreted externals ----------
+// Functions of reflect, strings, fmt, ... that have no dedicated model are
+// treated as uninterpreted functions of their arguments (so two calls with the
+// same arguments agree), never touching ghost or instance state.  Allocating
+// reflect functions return a fresh value per call; reflect setters only mark
+// the path ABSTRACT.  All of this is the trusted reflection model R (DESIGN §3.3).
+
+var pureExternalPkgs = map[string]bool{"reflect": true, "strings": true, "fmt": true, "errors": true, "math": true, "unicode/utf8": true, "path/filepath": true, "runtime": true, "strconv": true, "unicode": true}
+
+var allocExternals = map[string]bool{"reflect.New": true, "reflect.MakeSlice": true, "reflect.MakeMap": true, "reflect.Append": true, "reflect.MakeMapWithSize": true, "reflect.Zero": true}
+
+func isReflectSetter(name string) bool {
+	return strings.HasPrefix(name, "(reflect.Value).Set")
+}
+
+func (m *Machine) pureExternal(c *Config, call ssa.CallInstruction, full string, args []Value) (*Config, []*Config) {
+	st := c.st
+	st.abstract = true
+	st.trust("R:" + full)
+	sig := call.Common().Signature()
+	nres := sig.Results().Len()
+	fname := "X." + sanitize(full)
+	if isReflectSetter(full) {
+		m.reflectWrites = append(m.reflectWrites, reflectWrite{fn: c.top.fn, pos: call.Pos(), what: full})
+		st.ghost["@rset"] = BVAdd(m.ghostOr(st, "@rset", BVLitI(0, 64)), BVLitI(1, 64))
+		m.bindCallResult(c, call, nil)
+		return c, nil
+	}
+	var ats []Term
+	functional := !allocExternals[full]
+	for _, a := range args {
+		switch x := a.(type) {
+		case Term:
+			ats = append(ats, x)
+		case *SliceV:
+			if s := seqSortFor(x.Obj.Elem); s != SObj {
+				ats = append(ats, m.packTerm(st, x, s))
+			} else {
+				functional = false
+			}
+		default:
+			functional = false
+		}
+	}
+	var res []Value
+	for i := 0; i < nres; i++ {
+		rt := sig.Results().At(i).Type()
+		res = append(res, m.uninterpResult(st, fmt.Sprintf("%s#%d", fname, i), ats, rt, functional))
+	}
+	if allocExternals[full] && nres == 1 {
+		if t, ok := res[0].(Term); ok {
+			m.cur.freshTerms[t.S] = true
+			// remember what it was made from (type argument etc.)
+			var as []string
+			for _, a := range ats {
+				as = append(as, a.S)
+			}
+			m.allocInfo[t.S] = allocRec{fn: full, args: ats}
+		}
+	}
+	m.bindCallResult(c, call, res)
+	return c, nil
+}
+
+type allocRec struct {
+	fn   string
+	args []Term
+}
+
+type reflectWrite struct {
+	fn   *ssa.Function
+	pos  token.Pos
+	what string
+}
+
+func (m *Machine) uninterpResult(st *State, fname string, args []Term, rt types.Type, functional bool) Value {
+	s := m.sortOf(rt)
+	if s != "" {
+		if !functional {
+			return m.syms.fresh(fname, s)
+		}
+		var asorts []Sort
+		for _, a := range args {
+			asorts = append(asorts, a.Sort)
+		}
+		sig := fname + "/" + fmt.Sprint(asorts)
+		dn, ok := m.uninterpNames[sig]
+		if !ok {
+			dn = fname
+			if _, clash := m.uninterpUsed[dn]; clash {
+				dn = fmt.Sprintf("%s.%d", fname, len(m.uninterpUsed))
+			}
+			m.uninterpUsed[dn] = true
+			m.uninterpNames[sig] = dn
+			m.syms.declareFun(dn, asorts, s)
+		}
+		if len(args) == 0 {
+			return Sym(dn, s)
+		}
+		return app(s, dn, args...)
+	}
+	switch u := rt.Underlying().(type) {
+	case *types.Struct:
+		sv := &StructV{Typ: rt}
+		for i := 0; i < u.NumFields(); i++ {
+			sv.F = append(sv.F, m.uninterpResult(st, fname+"."+u.Field(i).Name(), args, u.Field(i).Type(), functional))
+		}
+		return sv
+	case *types.Slice:
+		v := m.freshValue(fname, rt).(*SliceV)
+		m.sliceWF(st, v)
+		if functional {
+			// the length is a function of the arguments (e.g. MapKeys)
+			var asorts []Sort
+			for _, a := range args {
+				asorts = append(asorts, a.Sort)
+			}
+			ln := m.uninterpResult(st, fname+".len", args, types.Typ[types.Int], true).(Term)
+			st.assume(Eq(v.Len, ln))
+			st.assume(BVSge(ln, BVLitI(0, 64)))
+		}
+		return v
+	}
+	return m.freshValue(fname, rt)
 }
